@@ -366,6 +366,28 @@ pub fn base_raw(quick: bool) -> Vec<Gen> {
             v.push(g);
         }
     }
+    // code-length sets that need the LARGEST two-level decoding tables (the classic "enough" question): every histogram
+    // of the class {one code on each length of a subset of 1..=10} + {0..2 codes of 11, 14 bits, 0/2/4 of 15 bits} +
+    // the 12/13-bit codes that complete it, on 258..=286 symbols, ranked by the number of table entries an independent
+    // model of the sub-table sizing rule gives for 10 and for 9 root bits; the top sets of each ranking are used
+    for (why, lens) in table_heavy_sets() {
+        let n = lens.len();
+        let mut ll = lens.clone();
+        ll.resize(n.max(257), 0);
+        let mut t: Vec<Tok> = vec![];
+        for s in [0u8, 1, 2, 3, 4, 5, 6, 50, 100, 200, 254, 255] {
+            t.push(Tok::Lit(s));
+        }
+        for len in [3u16, 4, 10, 11, 18, 35, 130, 195, 227, 257, 258] {
+            if (len_sym(len).0 as usize) < n {
+                t.push(Tok::Match(len, 1 + (len % 2)));
+                t.push(Tok::Lit((len % 7) as u8));
+            }
+        }
+        let mut g = gen(format!("table-heavy({why}, {n} symbols)"), &[Plan::Dynamic { toks: t, ll_lens: ll, d_lens: vec![1, 1], rle: Rle::Greedy, hclen_trim: true }]);
+        g.light = true;
+        v.push(g);
+    }
     // long streams: window wrap, 32 KiB distances, maximal stored block
     let mut long = vec![];
     for i in 0..33000u32 {
@@ -396,6 +418,111 @@ pub fn base_raw(quick: bool) -> Vec<Gen> {
         v.push(gen("fixed(z + 400 x match(258,1))".into(), &[Plan::Fixed(rep)]));
     }
     v
+}
+
+/// entries a two-level decoding table with `root` first-level bits needs for the canonical code with these lengths
+/// (first level, plus one sub-table per distinct `root`-bit prefix of the longer codes; a sub-table started by a code
+/// of length L has 2^k entries, k the smallest number of bits from L - root on that the remaining codes of lengths up to
+/// root + k do not fill completely, bounded by the longest code)
+pub fn table_entries(lens: &[u8], root: usize) -> usize {
+    let mut count = [0usize; 16];
+    for &l in lens {
+        count[l as usize] += 1;
+    }
+    count[0] = 0;
+    let Some(max) = (1..=15).rev().find(|&l| count[l] != 0) else { return 0 };
+    let min = (1..=15).find(|&l| count[l] != 0).unwrap();
+    let root = root.min(max).max(min);
+    let mut used = 1usize << root;
+    let mut code = 0u32; // canonical code of the current length
+    let mut last_prefix: Option<u32> = None;
+    for len in min..=max {
+        while count[len] != 0 {
+            if len > root {
+                let prefix = code >> (len - root);
+                if last_prefix != Some(prefix) {
+                    let mut curr = len - root;
+                    let mut left: i64 = 1 << curr;
+                    while curr + root < max {
+                        left -= count[curr + root] as i64;
+                        if left <= 0 {
+                            break;
+                        }
+                        curr += 1;
+                        left <<= 1;
+                    }
+                    used += 1 << curr;
+                    last_prefix = Some(prefix);
+                }
+            }
+            code += 1;
+            count[len] -= 1;
+        }
+        code <<= 1;
+    }
+    used
+}
+
+/// see `base_raw`: (label, lengths in symbol order)
+pub fn table_heavy_sets() -> Vec<(String, Vec<u8>)> {
+    let mut found: Vec<(usize, usize, Vec<usize>)> = vec![]; // (entries@10, entries@9, histogram)
+    for sub in 0u32..1024 {
+        let mut base_k = 0u32; // Kraft sum in units of 2^-15
+        let mut h0 = vec![0usize; 16];
+        for l in 1..=10usize {
+            if sub >> (l - 1) & 1 == 1 {
+                h0[l] = 1;
+                base_k += 1 << (15 - l);
+            }
+        }
+        if base_k >= 32768 {
+            continue;
+        }
+        for c11 in 0..=2usize {
+            for c14 in 0..=2usize {
+                for c15 in [0usize, 2, 4] {
+                    let k = base_k as i64 + (c11 as i64) * 16 + (c14 as i64) * 2 + c15 as i64;
+                    let rest = 32768 - k;
+                    if rest < 0 {
+                        continue;
+                    }
+                    let fixed = h0.iter().sum::<usize>() + c11 + c14 + c15;
+                    for c13 in 0..=286usize {
+                        let r = rest - 4 * c13 as i64;
+                        if r < 0 || r % 8 != 0 {
+                            continue;
+                        }
+                        let c12 = (r / 8) as usize;
+                        let n = fixed + c12 + c13;
+                        if !(258..=286).contains(&n) {
+                            continue;
+                        }
+                        let mut h = h0.clone();
+                        h[11] = c11;
+                        h[12] = c12;
+                        h[13] = c13;
+                        h[14] = c14;
+                        h[15] = c15;
+                        let lens: Vec<u8> = (1..=15u8).flat_map(|l| std::iter::repeat(l).take(h[l as usize])).collect();
+                        found.push((table_entries(&lens, 10), table_entries(&lens, 9), h));
+                    }
+                }
+            }
+        }
+    }
+    let mut out: Vec<(String, Vec<u8>)> = vec![];
+    for root in [10usize, 9] {
+        found.sort_by_key(|f| std::cmp::Reverse(if root == 10 { f.0 } else { f.1 }));
+        for f in found.iter().take(5) {
+            let lens: Vec<u8> = (1..=15u8).flat_map(|l| std::iter::repeat(l).take(f.2[l as usize])).collect();
+            let e = if root == 10 { f.0 } else { f.1 };
+            let label = format!("{e} entries at {root} root bits, histogram {:?}", &f.2[1..]);
+            if !out.iter().any(|o| o.1 == lens) {
+                out.push((label, lens));
+            }
+        }
+    }
+    out
 }
 
 #[derive(Clone, Copy, Debug, PartialEq, Eq)]
